@@ -35,6 +35,22 @@ const XVALS: [(&str, &str); 14] = [
     ("[]", "lijst"),
 ];
 
+/// (literal, a statement that changes the value held by `t` in place) for the `literal-reevaluation` family
+const RELITS: [(&str, &str); 12] = [
+    ("[0, 0]", "t[0] = t[0] + 5"),
+    ("[1.5, ja, 7]", "t[2] = t[2] * 2; t[1] = nee"),
+    ("[[1], [2, 3]]", "stel r = t[0]; r[0] = r[0] + 10"),
+    ("\"abc\"", "t[0] = \"#\""),
+    ("[\"a\", 1]", "t[1] = t[1] + 1"),
+    ("[-1, 2]", "t[0] = 0"),
+    ("[nee]", "t[0] = ja"),
+    ("[1152921504606846975]", "t[0] = 0"),
+    ("[0.0, -0.0]", "t[1] = 1.0"),
+    ("[0.5]", "t[0] = t[0] + 0.5"),
+    ("[\"é\", \"💖\"]", "stel c = t[0]; c[0] = \"e\"; t[1] = \"x\""),
+    ("[[], [[]]]", "t[0] = 1"),
+];
+
 fn literal_value(s: &str) -> Val {
     if s == "ja" || s == "nee" {
         Val::Bool(s == "ja")
@@ -267,6 +283,7 @@ impl C15 {
                 ("pairs-row", 24),
                 ("literal-pairs", 40),
                 ("cross-type-equality", 60),
+                ("literal-reevaluation", 12),
             ]);
         }
         Families::new(vec![
@@ -282,6 +299,7 @@ impl C15 {
             ("pairs-row", self.sample.len() as u64),
             ("literal-pairs", (LITERALS.len() * LITERALS.len()) as u64),
             ("cross-type-equality", (XVALS.len() * XVALS.len() * 5) as u64),
+            ("literal-reevaluation", (RELITS.len() * 4) as u64),
         ])
     }
 
@@ -466,6 +484,27 @@ impl Check for C15 {
                     st.violation("roundtrip:array-shared-rendering", format!("an array that holds the same array twice is rendered as {}, the array itself as {}", crate::obs::clip(&got, 300), crate::obs::clip(&once, 150)), &txt);
                 }
             }
+            "literal-reevaluation" => {
+                // a literal denotes a NEW value every time it is evaluated: what an earlier evaluation's value was turned
+                // into afterwards must not show in a later one (function called again, next loop iteration, the same
+                // spelling elsewhere). Oracle: the reference interpreter.
+                let n = RELITS.len() as u64;
+                let i = if ctx.flavour == crate::sup::Flavour::Miri { (i * 5 + ctx.seed) % (n * 4) } else { i };
+                let (lit, mutation) = RELITS[(i % n) as usize];
+                let text = match i / n {
+                    0 => format!("functie f() {{ stel t = {}; {}; t }}; [f(), f(), f()]", lit, mutation),
+                    1 => format!("stel uit = []; stel i = 0; zolang i < 3 {{ stel t = {}; {}; uit = [uit, t]; i += 1 }}; uit", lit, mutation),
+                    2 => format!("stel t = {}; stel q = {}; {}; [t, q, {}]", lit, lit, mutation, lit),
+                    _ => format!("functie maak() {{ {} }}; stel t = maak(); {}; stel u = maak(); [t, u, maak()]", lit, mutation),
+                };
+                let d = crate::diff::differential(&text, &crate::obs::ObsCfg::plain(100_000), 100_000, st);
+                st.count("literal-reevaluation");
+                match d.verdict {
+                    crate::diff::Verdict::Agree { .. } => st.distinct_hash(hash_str(&text)),
+                    crate::diff::Verdict::Mismatch { sig, detail } => st.violation(&format!("literal-reevaluation:{}", sig), detail, &text),
+                    _ => st.count("literal-reevaluation:not-judged"),
+                }
+            }
             "cross-type-equality" => {
                 // through the language: two values of different type are never equal, whichever instruction the compiler
                 // picks for the comparison (an error is fine — C06 demands one —, `ja` for == or `nee` for != is not);
@@ -568,7 +607,7 @@ impl Check for C15 {
             inconclusive.push(format!("pairwise cross product incomplete: {} pairs", pairs));
         }
         Summary {
-            rule: "constructors of nederlang::object::Object called directly, read back through tag/as_*/is_heap_allocated; plus every ordered pair of 34 literal spellings (integers up to both range ends, floats incl. both zeros and 17-digit fractions, booleans, strings that spell numbers) written together in one program, directly, through variables and through a function, and read back from the result; and == / != between every ordered pair of 14 values of the seven types in five syntactic forms (literals, local against literal on either side, two locals, two globals): different types never equal, same type and content always, different content never; distinct = distinct value descriptions (and distinct ordered pairs); every case is non-trivial (an actual encode/decode)".to_string(),
+            rule: "constructors of nederlang::object::Object called directly, read back through tag/as_*/is_heap_allocated; plus every ordered pair of 34 literal spellings (integers up to both range ends, floats incl. both zeros and 17-digit fractions, booleans, strings that spell numbers) written together in one program, directly, through variables and through a function, and read back from the result; literals evaluated repeatedly (function called again, next iteration, same spelling elsewhere) after the earlier value was changed in place; and == / != between every ordered pair of 14 values of the seven types in five syntactic forms (literals, local against literal on either side, two locals, two globals): different types never equal, same type and content always, different content never; distinct = distinct value descriptions (and distinct ordered pairs); every case is non-trivial (an actual encode/decode)".to_string(),
             exhaustive: Some(true),
             extra: json!({
                 "exhaustive_parts": ["int lattice", "function (offset,count) boundary grid", "200x200 pairwise cross product"],
